@@ -1,6 +1,7 @@
 \* export (thorough): routing - every list over 0..6
 CONSTANTS
   ShardLists <- MCAllLists
+  Deployments <- MCDepRoute
   Instants = {0, 1, 2, 3, 4, 5, 6}
   Scenes = {"submit"}
   ChainKinds = {"x509", "precert", "precertPreIssuer"}
